@@ -3,7 +3,7 @@
    kinds:
      c15   <variant> <syms> <rands> <user> <pass> <nuser> <npass> <salt> <iter> <tls> <keys>
      c15r  <variant> <syms1> <syms2> <rands> <user> <pass> <nuser> <npass> <salt> <iter> <tls> <keys>
-     auth  <lad 0|1> <replies> <mech> <mech args...>
+     auth  <lad 0|1> <replies> <mech> <mech args...>       (auth16: the same plus the records of a NOOP after Auth)
      hash  <sha1|sha256|md5> <msg>          hmac <sha1|sha256|md5> <key> <msg>
      pbkdf2 <sha1|sha256> <pass> <salt> <iter> <keylen>
      esc <name>     unesc <name>     atoi <text>     b64d <text>
@@ -84,7 +84,9 @@ let run (toks : string list) : string =
       let tab = precis_tab user pass nuser npass in
       let ((c1, s1), (c2, s2)) = M.c15_retry v256 M.gen_cfg (M.table_oracle tab) id (params keys salt iter) (byteslist_of rands) (syms_of syms1) (syms_of syms2) in
       hex_of_bytes c1 ^ " " ^ hexlist_of s1 ^ " " ^ hex_of_bytes c2 ^ " " ^ hexlist_of s2
-  | "auth" :: lad :: replies :: mech :: args ->
+  | ("auth" | "auth16" | "auth14" as kind) :: lad :: replies :: mech :: args0 ->
+      (* auth16 cases carry the harness scenario as a last argument the model does not use *)
+      let args = if kind = "auth16" || kind = "auth14" then List.rev (List.tl (List.rev args0)) else args0 in
       let si name tls = { M.si_name = bytes_of_hex name; M.si_tls = bool_of tls } in
       let d = match mech, args with
         | "plain", [ident; user; pass; host; allow; sname; tls] ->
@@ -100,8 +102,14 @@ let run (toks : string list) : string =
             M.MScram (v256, id, precis_tab user pass nuser npass, byteslist_of rands)
         | _ -> failwith "bad mech" in
       let o = M.run_auth M.gen_cfg d (bool_of lad) (replies_of replies) in
-      Printf.sprintf "%s %s %s S:%s L:%s" (hex_of_bytes o.M.ro_class) (b o.M.ro_active) (b o.M.ro_closed)
-        (hexlist_of o.M.ro_sent) (hexlist_of o.M.ro_log)
+      let base = Printf.sprintf "%s %s %s S:%s L:%s" (hex_of_bytes o.M.ro_class) (b o.M.ro_active) (b o.M.ro_closed)
+        (hexlist_of o.M.ro_sent) (hexlist_of o.M.ro_log) in
+      if kind = "auth14" then Printf.sprintf "%s S:%s" (hex_of_bytes o.M.ro_class) (hexlist_of o.M.ro_sent)
+      else if kind = "auth16" then
+        (* the NOOP the harness sends after Auth when the connection is still open, answered "250 ok" *)
+        base ^ " P:" ^ (if o.M.ro_closed then "-" else
+                         hexlist_of (M.post_records o (bytes_of_string "NOOP") (M.Reply (n_of_int 250, bytes_of_string "ok"))))
+      else base
   | ["hash"; h; m] ->
       let f = match h with "sha1" -> M.sha1 | "sha256" -> M.sha256 | "md5" -> M.md5 | _ -> failwith "bad hash" in
       hex_of_bytes (f (bytes_of_hex m))
